@@ -172,14 +172,25 @@ theorem checkIBTP_request_batch {env : Env} {l : Led} {i : Ibtp} {ck : Checked} 
   unfold checkIBTP at h
   repeat' (first | (cases h <;> simp_all) | split at h | simp only at h)
 
-/-- the destination is index-checked: a local, non-hub destination whose service record (if any) is an ordered one -/
+/-- the destination is index-checked: a service of another BitXHub, or a local, non-hub destination whose service record (if
+any) is an ordered one -/
 def OrderedDst (env : Env) (l : Led) (d : SvcId) : Prop :=
-  isLocal env d = true ∧ (d.chain == d.bxh) = false ∧ env.cache = [] ∧
-  ∀ sv, l.getS (.svc d.chain d.sid) = some (.svc sv) → sv.ordered = true
+  isLocal env d = false ∨
+  (isLocal env d = true ∧ (d.chain == d.bxh) = false ∧ env.cache = [] ∧
+    ∀ sv, l.getS (.svc d.chain d.sid) = some (.svc sv) → sv.ordered = true)
+
+/-- it depends on the service records only -/
+theorem OrderedDst.mono {env : Env} {l l' : Led} {d : SvcId} (h : OrderedDst env l d)
+    (hsvc : ∀ c sid, l'.getS (.svc c sid) = l.getS (.svc c sid)) : OrderedDst env l' d := by
+  rcases h with h | ⟨h1, h2, h3, h4⟩
+  · exact Or.inl h
+  · exact Or.inr ⟨h1, h2, h3, fun sv hs => h4 sv (by rw [← hsvc]; exact hs)⟩
 
 theorem orderedDst_not_batch {env : Env} {l : Led} {i : Ibtp} {ck : Checked} (hd : OrderedDst env l ck.dst)
     (h : checkIBTP env l i = .ok ck) (hreq : i.typ.isRequest = true) (hn : ck.notice = false) : ck.isBatch = false := by
-  obtain ⟨hloc, hhub, hcache, hord⟩ := hd
+  rw [checkIBTP_request_batch h hreq hn]
+  rcases hd with hrem | ⟨hloc, hhub, hcache, hord⟩
+  · unfold checkTarget; simp [hrem]
   have hct : ∀ src, (checkTarget env l src ck.dst).1 = false := by
     intro src
     unfold checkTarget
@@ -199,7 +210,6 @@ theorem orderedDst_not_batch {env : Env} {l : Led} {i : Ibtp} {ck : Checked} (hd
           · rfl
           · simp [hord sv hs]
       | _ => rfl
-  rw [checkIBTP_request_batch h hreq hn]
   exact hct ck.src
 
 /-- **requests of an index-checked ordered pair are accepted as 1, 2, 3, … with no gap and no repeat,
@@ -224,9 +234,7 @@ theorem C02_history_requests_consecutive (env : Env) (s d : SvcId) (is : List Ib
       obtain ⟨ck, hck⟩ := handleIBTP_ok_checked hh
       obtain ⟨hfrm, hto⟩ := checkIBTP_ends hck
       have hcnt := fun s' d' => handleIBTP_reqCounter hck hh s' d'
-      have hd' : OrderedDst env r.1 d := by
-        obtain ⟨h1, h2, h3, h4⟩ := hd
-        exact ⟨h1, h2, h3, fun sv hs => h4 sv (by rw [← handleIBTP_svc_frame hh]; exact hs)⟩
+      have hd' : OrderedDst env r.1 d := hd.mono (fun c sid => handleIBTP_svc_frame hh c sid)
       obtain ⟨ih1, ih2⟩ := ih r.1 hd'
       have hrun : runIbtps env r.1 rest = List.foldl (fun l i => match handleIBTP env l i with | .ok r => r.1 | .error _ => l) r.1 rest := rfl
       rw [← hrun]
@@ -277,8 +285,9 @@ example :
 -- ------------------------------------------------------------------------------------ block level
 theorem orderedDst_env {env env' : Env} {l : Led} {d : SvcId} (hc : env'.cache = env.cache) (hb : env'.cfg.bxh = env.cfg.bxh)
     (h : OrderedDst env l d) : OrderedDst env' l d := by
-  obtain ⟨h1, h2, h3, h4⟩ := h
-  exact ⟨by unfold isLocal at *; rw [hb]; exact h1, h2, by rw [hc]; exact h3, h4⟩
+  rcases h with h | ⟨h1, h2, h3, h4⟩
+  · exact Or.inl (by unfold isLocal at *; rw [hb]; exact h)
+  · exact Or.inr ⟨by unfold isLocal at *; rw [hb]; exact h1, h2, by rw [hc]; exact h3, h4⟩
 
 theorem applyBvm_ic_frame {env : Env} {l : Led} {c m : String} {args : List Arg} {r : Led × String}
     (e : applyBvm env l c m args = .ok r) (hnd : ¬ (c = "interchain" ∧ m = "DeleteInterchain")) (x : SvcId) :
@@ -314,9 +323,7 @@ theorem C02_tx_counter_step (env : Env) (l : Led) (tx : Tx) (inv : Option String
     reqCounter (applyTx env l tx inv).1 s d = reqCounter l s d ∨
     (reqCounter (applyTx env l tx inv).1 s d = reqCounter l s d + 1 ∧
       ∃ sg i p, tx = .ibtp sg i p ∧ i.typ.isRequest = true ∧ i.frm = some s ∧ i.to = some d ∧ i.index = reqCounter l s d + 1) := by
-  have hd0 : OrderedDst env (txStart l) d := by
-    obtain ⟨h1, h2, h3, h4⟩ := hd
-    exact ⟨h1, h2, h3, fun sv hs => h4 sv hs⟩
+  have hd0 : OrderedDst env (txStart l) d := hd.mono (fun _ _ => rfl)
   have hc0 : reqCounter (txStart l) s d = reqCounter l s d := reqCounter_congr (fun x => txStart_getS l _) s d
   cases applyTx_effect env l tx inv with
   | nothing h => left; rw [reqCounter_congr (fun x => h _) s d, hc0]
